@@ -178,6 +178,7 @@ theorem startHandler_inv {s : S} (i : Inv s) (hd : s.down = false) (hc : s.closi
   | slow => exact addHandler_inv i hd _ (by simp [HOk]; omega)
   | stubborn r => exact addHandler_inv i hd _ (by simp [HOk]; omega)
   | aborter => exact doAbort_inv (addHandler_inv i hd _ (by simp [HOk]))
+  | thenClose fa => exact addHandler_inv i hd _ (by simp [HOk]; omega)
   | closer fa =>
     simp only []
     apply startCloser_inv i hd hc
@@ -206,6 +207,46 @@ theorem handlerFinish_inv {s : S} (i : Inv s) (j : Nat) :
     rw [hd] at hk
     have := hall (finishHandler j x) (List.mem_map.mpr ⟨x, hx, rfl⟩)
     rwa [finishHandler_of_down hk] at this
+
+/-- a waiting handler goes on to call `close()`: the state with `closing` set -/
+theorem resume_inv {s : S} (i : Inv s) (j : Nat) :
+    Inv { s with handlers := s.handlers.map (toCloser s.fixed s.now j), closing := true } := by
+  have e : toCloser s.fixed s.now j = toCloser true s.now j := by rw [i.fixed]
+  rw [e]
+  refine { fixed := i.fixed, h := ?_, t := i.t, c := ⟨i.c.ok, fun _ => rfl, i.c.caNone, i.c.caSome⟩,
+           l := i.l, settled := ?_ }
+  · refine ⟨i.h.ptPos, i.h.hook, i.h.lostDown, fun _ => rfl, ?_, ?_⟩
+    · intro hce
+      exact ⟨(i.h.closedThen hce).1, forall_map (i.h.closedThen hce).2 fun _ hd => toCloser_done hd⟩
+    · exact forall_map i.h.ok fun _ hk => toCloser_ok hk
+  · intro hd hall
+    apply i.settled hd
+    intro x hx
+    have hk := i.h.ok x hx
+    rw [hd] at hk
+    have := hall (toCloser true s.now j x) (List.mem_map.mpr ⟨x, hx, rfl⟩)
+    rwa [toCloser_of_down hk] at this
+
+theorem handlerFinish_step_inv {s : S} (i : Inv s) (j : Nat) : Inv (step s (.handlerFinish j)) := by
+  unfold step
+  simp only []
+  split
+  · exact handlerFinish_inv i j
+  · rename_i fa _
+    have i1 := resume_inv i j
+    have tc : Inv (S.transportClose { s with handlers := s.handlers.map (toCloser s.fixed s.now j) }) := by
+      rcases transportClose_cases { s with handlers := s.handlers.map (toCloser s.fixed s.now j) } with
+        ⟨hc, e⟩ | ⟨_, _, e⟩ | ⟨_, hst, e⟩ <;> rw [e]
+      · have : ({ s with handlers := s.handlers.map (toCloser s.fixed s.now j) } : S) =
+            { s with handlers := s.handlers.map (toCloser s.fixed s.now j), closing := true } := by
+          have hc' : s.closing = true := hc
+          cases s; simp_all
+        rw [this]; exact i1
+      · exact i1
+      · exact lose_inv i1 .graceful (fun _ => hst) (by simp)
+    split
+    · exact doAbort_inv tc
+    · exact tc
 
 theorem crash_inv {s : S} (i : Inv s) (j : Nat) : Inv (s.crash j) := by
   unfold S.crash
@@ -399,7 +440,7 @@ theorem step_inv {s : S} (i : Inv s) (e : Event) : Inv (step s e) := by
       intro hfa
       have hfa : fa ≠ 0 := by simpa using hfa
       omega
-  | handlerFinish j => exact handlerFinish_inv i j
+  | handlerFinish j => exact handlerFinish_step_inv i j
   | handlerCancel j => exact crash_inv i j
   | outgoing k => exact outgoing_inv i k
   | answer k => exact answer_inv i k
